@@ -13,7 +13,7 @@ REQUIRED = ["accepted_create_sound", "accepted_create_signed_by_did_key", "accep
             "controller_chain_bounded", "controller_cycle_refused", "deactivated_controller_rejected",
             "controllers_never_deactivated", "controller_versions_are_active", "validator_rules_partial", "validator_rules_embedded_witness", "deactivated_controller_latest_witness", "removed_key_rejected", "removed_key_rejected_self_controlled",
             "validator_rules_sound_complete", "validator_rules_each_necessary",
-            "fact_network_validators", "fact_wiring", "fact_entry_id_owner_is_document", "fact_verifier_always_verifies", "fact_thumbprint_rule_for_every_type", "fact_call_sites", "fact_comparisons", "fact_thumbprint_from_key_material", "fact_entry_id_checks", "fact_validator_scope", "fact_max_controller_depth",
+            "fact_network_validators", "fact_wiring", "fact_succeeded_version_and_key_collection", "fact_entry_id_owner_is_document", "fact_verifier_always_verifies", "fact_thumbprint_rule_for_every_type", "fact_call_sites", "fact_comparisons", "fact_thumbprint_from_key_material", "fact_entry_id_checks", "fact_validator_scope", "fact_max_controller_depth",
             "fact_resolve_conditions", "fact_controller_skips", "fact_create_update_split", "fact_callback_steps",
             "fact_store_calls", "fact_update_steps", "fact_ambassador_controller_resolution", "fact_key_resolver"]
 
@@ -154,8 +154,11 @@ def run(ctx):
     # ---- direct property oracles on the implementation's own outputs
     kinds, classes, labels = Counter(), Counter(), Counter()
     distinct = set()
-    n_pairs = n_ok = n_embedded_illformed = n_deactivated_controller = n_dag = 0
+    n_pairs = n_ok = n_embedded_illformed = n_deactivated_controller = n_deactivated_after = n_dag = 0
     dag_classes = Counter()
+    scripted_outcomes = Counter()
+    created = set()        # DIDs with an accepted creation in the current history
+    deactivations = {}     # tx ref -> DID that this accepted transaction deactivated (document without controller and capabilityInvocation)
     oracle = Counter()
     cur_obs = ""
     reported = {}
@@ -177,6 +180,7 @@ def run(ctx):
         op = json.loads(ops[i])
         if op["op"] == "hist":
             cur_obs = line.split(" ", 2)[2] if line.count(" ") >= 2 else ""
+            created, deactivations = set(), {}
             labels[re.sub(r"\d+$", "N", op.get("label", "?")) + ("/callback-only" if op.get("noVerify") else "/verifier+callback")] += 1
             verified = not op.get("noVerify")
             continue
@@ -199,6 +203,8 @@ def run(ctx):
         kind = op["raw"]["kind"]
         kinds[re.sub(r"(chain|cycle)\d+", r"\1N", kind)] += 1
         classes[cls] += 1
+        if re.match(r"(da|rs|ud|dv|dc|ks|ho|rk):", kind):
+            scripted_outcomes[kind + " -> " + cls.split("+")[0]] += 1
         distinct.add((kind.split(":")[0], cls, bool(op["tx"].get("embedded")), len(op["tx"]["prevs"]) > 1))
         prev_obs = cur_obs
         if shown != "=":
@@ -235,6 +241,14 @@ def run(ctx):
             report("accepted-embedded-method-violating-nuts-rules", "accepted a document whose embedded verification method breaks the "
                    "Nuts id/thumbprint rules: " + emb, i)
         tx = op["tx"]
+        if not doc["controllers"] and not doc["capInv"]:
+            deactivations[tx["ref"]] = doc["id"]
+        if tx.get("embedded"):
+            created.add(doc["id"])
+        elif doc["id"] not in created:
+            # a DID becomes resolvable only through an accepted creation (a transaction embedding the key it is derived from)
+            report("accepted-update-of-never-created-did",
+                   "an update transaction was accepted for a DID for which no creation has been accepted: " + doc["id"], i)
         if tx.get("embedded"):
             if tx["embeddedDid"] != doc["idID"]:
                 report("accepted-creation-with-foreign-key", "creation accepted although the DID's id-string is not EXACTLY the thumbprint of the embedded key "
@@ -262,7 +276,15 @@ def run(ctx):
                 for cdid in ctrl:
                     if cdid != doc["id"] and any(tx["signer"] in keys for _, keys in docs.get(cdid, [])):
                         sources.add(cdid)
-            if sources and doc["id"] not in sources and sources <= latest_deactivated(prev_obs):
+            if sources and doc["id"] not in sources and sources <= latest_deactivated(prev_obs) and \
+                    any(deactivations.get(p) in sources for p in tx["prevs"]):
+                # causally AFTER the deactivation: the transaction's own prevs name the controller's deactivation transaction
+                n_deactivated_after += 1
+                report("accepted-update-by-key-of-deactivated-controller-after-its-deactivation",
+                       "update accepted although the controller listing the signing key is deactivated AND the transaction's prevs name "
+                       "that deactivation transaction (kid resolved through another document, controllers through the signing-time fallback): "
+                       + ",".join(sorted(sources)), i)
+            elif sources and doc["id"] not in sources and sources <= latest_deactivated(prev_obs):
                 n_deactivated_controller += 1
                 report("accepted-update-by-key-of-deactivated-controller",
                        "update accepted although every controller that lists the signing key is deactivated at the time of the delivery "
@@ -319,6 +341,8 @@ def run(ctx):
                                      "pair_kinds": dict(sorted(kinds.items())), "outcome_classes": dict(sorted(classes.items())),
                                      "accepted": n_ok, "rejected": n_pairs - n_ok,
                                      "delayed_vdr_dag_verdicts": dict(sorted(dag_classes.items())),
+                                     "scripted_step_outcomes": dict(sorted(scripted_outcomes.items())),
+                                     "accepted_update_by_deactivated_controller_after_its_deactivation(known finding)": n_deactivated_after,
                                      "accepted_with_ill_formed_embedded_method(known finding)": n_embedded_illformed,
                                      "accepted_update_by_key_of_deactivated_controller(known finding)": n_deactivated_controller}
     ctx.cov["samples"] = [impl[1][:300] if len(impl) > 1 else "", impl[2][:300] if len(impl) > 2 else ""]
